@@ -142,6 +142,7 @@ type FuncContract struct {
 	Loops       []*LoopAnn
 	Calls       []*CallAnn
 	Flags       map[string]bool
+	Verified    bool // contract on a dependency function that is verified, not assumed
 	UsesHide    map[string][]string // postcondition label -> opaque predicates kept opaque while proving it
 	Uses        map[string][]string // postcondition label -> labels of postconditions assumed while proving it
 	Dispatch    map[string][]string // interface type key -> allowed dynamic types
@@ -660,7 +661,7 @@ func parseExprString(s string) (e Expr, err error) {
 // ---------------------------------------------------------------------------
 // Contract file reader
 
-var topKeywords = map[string]bool{"opaque": true, "deterministic": true, "func": true, "ghost": true, "ufunc": true, "pure": true, "pred": true, "axiom": true, "lemma": true, "type": true, "extern": true, "tag": true}
+var topKeywords = map[string]bool{"opaque": true, "deterministic": true, "func": true, "ghost": true, "ufunc": true, "pure": true, "pred": true, "axiom": true, "lemma": true, "type": true, "extern": true, "tag": true, "verified": true}
 var clauseKeywords = map[string]bool{"unfold": true, "fold": true, "owns": true, "reveal": true, "cases": true, "dispatch": true, "requires": true, "ensures": true, "modifies": true, "serves": true, "loop": true, "invariant": true,
 	"at": true, "after": true, "assert": true, "assume": true, "flag": true, "set": true, "uses": true}
 
@@ -753,6 +754,24 @@ func readSpecFile(path string, isSpec bool) (*SpecFile, error) {
 				return nil, perr(g, err)
 			}
 			fc.Extern = true
+			fc.File, fc.Line = path, g.line
+			if fc.PkgName == "" {
+				fc.PkgName = sf.PkgName
+			}
+			sf.Funcs = append(sf.Funcs, fc)
+			cur, curLoop, curCall = fc, nil, nil
+		case "verified":
+			// "verified func ..." in a spec file: a contract on a dependency function that is NOT assumed - the engine
+			// verifies the dependency's own code against it
+			w2 := firstWord(rest)
+			if w2 != "func" {
+				return nil, perr(g, fmt.Errorf("verified must be followed by func"))
+			}
+			fc, err := parseFuncHeader(strings.TrimSpace(rest[len(w2):]))
+			if err != nil {
+				return nil, perr(g, err)
+			}
+			fc.Verified = true
 			fc.File, fc.Line = path, g.line
 			if fc.PkgName == "" {
 				fc.PkgName = sf.PkgName
